@@ -24,6 +24,68 @@ def err_blocks(fn):
     return ok_blocks(fn, "Err")
 
 
+def subst_literals(lits, mapping, P=None):
+    """Literals of a callee (over its parameters) re-read in the caller: parameters replaced by the call's arguments;
+    boolean `term` atoms are re-parsed so that `flag` becomes e.g. is_identity(pairing(..))."""
+    from ..core.terms import subst
+
+    out = set()
+    for atom, pol in lits:
+        if atom[0] != "atom":
+            continue
+        k = atom[1]
+        if k == "term":
+            f = G.formula(subst(atom[2], mapping), P)
+            out |= G.literals(f, pol)
+        elif k in ("is_identity", "is_zero", "is_some"):
+            out.add((("atom", k, G._unref(strip_sites(subst(atom[2], mapping)))), pol))
+        elif k == "eq":
+            out.add((("atom", k, G._unref(strip_sites(subst(atom[2], mapping))), G._unref(strip_sites(subst(atom[3], mapping)))), pol))
+        elif k == "cmp":
+            out.add((("atom", k, atom[2], strip_sites(subst(atom[3], mapping)), strip_sites(subst(atom[4], mapping))), pol))
+        elif k in ("switch", "switch_not"):
+            out.add((("atom", k, strip_sites(subst(atom[2], mapping)), atom[3]), pol))
+    return out
+
+
+def ok_exits(P, fn, ev=None, depth=2, inline_bools=True, variant="Ok"):
+    """Success exits of fn with the literals that hold on them: [(block, literals)].
+    An exit is either a block that builds Ok(..) in the return place, or a tail call `return helper(..)` to a
+    crate-local function: then the helper's own success exits are looked up and their conditions translated to
+    the caller's terms (so `if c {Ok(())} else {Err(e)}` and `to_result(c)` are the same thing)."""
+    from ..core.terms import T
+
+    ev = ev or evaluate(fn)
+    Pf = P if inline_bools else None
+    out = [(b, G.path_literals(ev, b, Pf)) for b in ok_blocks(fn, variant)]
+    if depth <= 0:
+        return out
+    for b in sorted(fn.cfg.reachable):
+        t = fn.blocks[b]["term"]
+        if t["k"] != "call" or t.get("dest") != {"l": 0}:
+            continue
+        c = t.get("callee") or {}
+        g = P.fns.get(c.get("key")) if c.get("key") else None
+        if g is None or g is fn:
+            # `return external(..)` in a Result-returning function: the callee may return Ok (only the caller's own
+            # path conditions are known); `?` lowers to from_residual, which only builds Err
+            if variant == "Ok" and g is None and "Result<" in (fn.locals[0].get("ty") or "") and c.get("name") != "from_residual":
+                out.append((b, G.path_literals(ev, b, Pf)))
+            continue
+        s = ev.sites.get(b)
+        if s is None:
+            continue
+        gev = evaluate(g)
+        mapping = {}
+        for i in range(1, g.arg_count + 1):
+            if i - 1 < len(s.args):
+                mapping[T("param", i, gev.pname(i))] = s.args[i - 1]
+        here = G.path_literals(ev, b, Pf)
+        for gb, glits in ok_exits(P, g, gev, depth - 1, inline_bools, variant):
+            out.append((b, here | subst_literals(glits, mapping, Pf)))
+    return out
+
+
 def subject_matches(term, subj):
     """subj: ('param', name) | ('re', regex over show(term))"""
     t = term
@@ -49,14 +111,14 @@ def check_result_guard(ctx, rule, P, fn_key, kind, subj, desc=None, exits="ok"):
     if fn is None:
         return False
     ev = evaluate(fn)
-    blocks = ok_blocks(fn) if exits == "ok" else exits(fn, ev)
+    exs = ok_exits(P, fn, ev) if exits == "ok" else [(b, G.path_literals(ev, b, P)) for b in exits(fn, ev)]
+    blocks = [b for b, _ in exs]
     name = desc or (subj[1] if subj[0] == "param" else subj[1])
     if not blocks:
         return ctx.ob(rule + ".anchor", "%s/%s(%s)" % (fn_key, kind, name), False, "no success exit found in `%s` (anchor changed shape)" % fn_key, where=where(fn))
     allok = True
     bad = None
-    for b in blocks:
-        lits = G.path_literals(ev, b, P)
+    for b, lits in exs:
         if not has_literal(lits, kind, subj, False):
             allok = False
             bad = b
@@ -143,6 +205,13 @@ def len_at_least(lits, pname, k):
                 x = B.peel(t.a[1][0])
                 if x.op == "param" and x.a[1] == pname:
                     return True
+        if atom[0] == "atom" and atom[1] == "term" and not pol:
+            # slice pattern `[a, rest @ ..] if !rest.is_empty()`: rest = param[i .. len-j] non-empty => len >= i+j+1
+            t = atom[2]
+            if t.op == "call" and B.cname(t) in ("slice::<impl [T]>::is_empty",) and len(t.a[1]) == 1:
+                x = B.peel(t.a[1][0])
+                if x.op == "subslice" and x.a[3] is True and B.peel(x.a[0]).op == "param" and B.peel(x.a[0]).a[1] == pname and isinstance(x.a[1], int) and isinstance(x.a[2], int) and x.a[1] + x.a[2] + 1 >= k:
+                    return True
         if atom[0] != "atom" or atom[1] != "cmp":
             continue
         op, a, b = atom[2], atom[3], atom[4]
@@ -171,10 +240,11 @@ def check_min_len(ctx, rule, P, fn_key, pname, k, extra_blocks=None):
     if fn is None:
         return False
     ev = evaluate(fn)
-    blocks = ok_blocks(fn) + (extra_blocks(fn, ev) if extra_blocks else [])
+    exs = ok_exits(P, fn, ev) + [(b, G.path_literals(ev, b, P)) for b in (extra_blocks(fn, ev) if extra_blocks else [])]
+    blocks = [b for b, _ in exs]
     if not blocks:
         return ctx.ob(rule + ".anchor", fn_key, False, "no success exit found in `%s`" % fn_key, where=where(fn))
-    bad = [b for b in blocks if not len_at_least(G.path_literals(ev, b, P), pname, k)]
+    bad = [b for b, lits in exs if not len_at_least(lits, pname, k)]
     return ctx.ob(rule, "%s/len(%s)>=%d" % (fn_key, pname, k), not bad, "every success exit of `%s` requires len(%s) >= %d%s" % (fn_key, pname, k, "" if not bad else " - bb%s reachable without the length guard" % bad), where=where(fn, bad[0]) if bad else where(fn))
 
 
@@ -231,8 +301,38 @@ def covers_all(src, list_param):
         rng = B.peel(t.a[1][1])
         if base.op == "param" and base.a[1] == list_param and rng.op == "agg" and rng.a[0][1] == "RangeFrom" and B._const_int(rng.a[1][0]) == 1:
             return "tail1"
+    if t.op == "subslice" and t.a[3] is True and t.a[1] == 1 and t.a[2] == 0:
+        # `[first, rest @ ..]` slice pattern: rest = list[1..]
+        base = B.peel(t.a[0])
+        if base.op == "param" and base.a[1] == list_param:
+            return "tail1"
     if t.op == "call" and B.cname(t) == "Iterator::skip" and B._const_int(t.a[1][1]) == 1:
         inner = covers_all(t.a[1][0], list_param)
         if inner == "all":
             return "tail1"
     return None
+
+
+SCALAR_IMPORTERS = ("helpers::scalar_from_be_bytes", "helpers::scalar_from_le_bytes")
+
+
+def check_scalar_zero_guard(ctx, rule, P):
+    """The byte importers of scalars reject the all-zero string: in each helper every from_repr call is dominated by
+    !is_zero(input); a helper that has no from_repr of its own must hand its input to the sibling importer (which is checked)."""
+    for fk in SCALAR_IMPORTERS:
+        fn = ctx.need_fn(rule, fk, P)
+        if fn is None:
+            continue
+        ev = evaluate(fn)
+        own = [b for b, s in sorted(ev.sites.items()) if s.callee[0] == "PrimeField::from_repr"]
+        deleg = [(b, s) for b, s in sorted(ev.sites.items()) if s.callee[0] in SCALAR_IMPORTERS and s.callee[0] != fk]
+        if own:
+            check_result_guard(ctx, rule, P, fk, "is_zero", ("param", "input"), exits=lambda f_, e_: own)
+        elif deleg:
+            for b, s in deleg:
+                arg = strip_sites(s.args[0]) if s.args else None
+                dep = arg is not None and any(t.op == "param" and t.a[1] == "input" for t in subterms(arg))
+                ret_is_call = any(t.op == "call" and B.cname(t) == s.callee[0] for t in subterms(strip_sites(ev.ret))) if ev.ret is not None else False
+                ctx.ob(rule, "%s/delegates" % fk, dep and ret_is_call, "%s has no from_repr of its own: it returns %s(<image of input>) (the sibling importer carries the zero test)" % (fk, s.callee[0]), where=where(fn, b))
+        else:
+            ctx.ob(rule + ".anchor", "%s/is_zero(input)" % fk, False, "neither a from_repr call nor a delegation to the sibling importer found in `%s` (anchor changed shape)" % fk, where=where(fn))
